@@ -116,6 +116,7 @@ pub fn check_case(env: &Env, ctx: &Ctx, case: &Case) -> (Vec<Violation>, LagStat
             }
             if e.kind == "CLOCK" {
                 *fired.entry("fault_fired.producer_pause_clock_advance".into()).or_default() += 1;
+                *fired.entry("simulated_time_covered_ms".into()).or_default() += e.num("advance_ms").max(0) as u64;
             }
         }
         if r.timed_out || r.exit_code != Some(0) {
